@@ -6,6 +6,7 @@ CONSTANTS MaxPre = 1 MaxN = 5
   FlowKinds = {"bare", "pairs", "ctx"}
   Drivers = {"fill"}
   Places = {"alone"}
+  StopFlag = "per_branch"
   CopyMode = "per_branch"
   Bufs <- BufOne
 INVARIANT DriversAgree
